@@ -232,8 +232,10 @@ class _Items:
     def __init__(self, table):
         self.table = table
 
-    def dictcomp_hook(self, I, image):
+    def dictcomp_hook(self, I, image, filtered=False):
         from pyvc.symexec import STuple
+        if filtered:
+            return _Table(self.table.name + " (filtered)", I.fresh("filtered_content", _Table.SORT))
         k, v = SStr(I.fresh("some_key", z3.StringSort())), SOpaque("some value of " + self.table.name, cls=object)
         k2, v2 = image(STuple([k, v]))
         same_key = isinstance(k2, SStr) and z3.eq(z3.simplify(k2.t), z3.simplify(k.t))
@@ -255,6 +257,11 @@ def from_sources_contract():
     def make(I):
         from openapi_python_client import config as C
         fields = {f: SOpaque(f"config_file.{f}", cls=object) for f in PASSTHROUGH}
+        fields["field_prefix"] = SStr(z3.Const("field_prefix", z3.StringSort()))          # typed: str / bool options
+        from pyvc.symexec import SBool, SInt
+        for f in ("use_path_prefixes_for_title_model_names", "docstrings_on_attributes", "generate_all_tags", "literal_enums"):
+            fields[f] = SBool(z3.Const(f, z3.BoolSort()))
+        fields["http_timeout"] = SInt(z3.Const("http_timeout", z3.IntSort()))
         tables = {}
         for f in ("class_overrides", "content_type_overrides"):
             tables[f] = None if I.branch_free() else _Table(f)
